@@ -182,7 +182,72 @@ def _shift_equivariant(fn_name, weighted=False, tol=1e-6):
     return chk
 
 
-contract("cnvlib/descriptives.py::weighted_median", params=dict(a=VecT(Real), w=VecT(Real)), bounded=True,
+contract("cnvlib/descriptives.py::weighted_median", params=dict(a=VecT(Real), weights=VecT(Real)), returns=Real, trusted=True,
+         requires=[], props=(), domain="skip",
+         ensures=[("within_the_data_range", "implies(len(a) >= 1, exists(0, len(a), lambda k1: exists(0, len(a), lambda k2: "
+                                            "a[k1] <= result and result <= a[k2])))")],
+         notes="assumed at call sites: a weighted median lies within the range of its values (the bounded twin "
+               "weighted_median#rt checks this clause `in_range`, and the half-weight definition, on generated inputs)")
+
+# The body of weighted_median under contract (key suffix #body: the text verified is the function's own body; call sites
+# see the decorated function, whose contract above stays assumed -- what separates the two is on_weighted_array's
+# glue: length check, NaN dropping, the single-value shortcut).  Clauses are stated over the sorted view the body builds
+# (local_a, local_weights = the values in non-decreasing order and their weights, a joint reordering of the arguments).
+_WM_TOL = "len(a) * 2.220446049250313e-16 * sumof(local_weights)"
+_WM_ABOVE = ("forall(0, len(a) + 1, lambda q: implies(forall(0, len(a), lambda i: (i >= q) == (local_a[i] > result)), "
+             "sumof(local_weights) - psum(local_weights, q) <= 0.5 * sumof(local_weights) + TOL))")
+_WM_BELOW = ("forall(0, len(a) + 1, lambda p: implies(forall(0, len(a), lambda i: (i < p) == (local_a[i] < result)), "
+             "psum(local_weights, p) <= 0.5 * sumof(local_weights) + TOL))")
+contract(
+    "cnvlib/descriptives.py::weighted_median#body",
+    params=dict(a=VecT(Real), weights=VecT(Real)), returns=Real,
+    requires=["len(a) == len(weights)", "len(a) >= 2", "forall(0, len(weights), lambda k: weights[k] >= 0)"],
+    ensures=[
+        ("result_within_the_data_range", "exists(0, len(a), lambda k1: exists(0, len(a), lambda k2: a[k1] <= result and result <= a[k2]))"),
+        # the sorted view: local_a / local_weights are the values in non-decreasing order and their weights
+        ("sorted_view", "len(local_a) == len(a) and len(local_weights) == len(a) and "
+                        "forall(0, len(a), lambda x: forall(0, len(a), lambda y: implies(x <= y, local_a[x] <= local_a[y]))) and "
+                        "forall(0, len(a), lambda x: local_weights[x] >= 0)"),
+        ("sorted_view_is_a_joint_reordering", "forall(0, len(a), lambda k: 0 <= local_order[k] and local_order[k] < len(a) and "
+                                              "local_a[k] == a[local_order[k]] and local_weights[k] == weights[local_order[k]]) and "
+                                              "forall(0, len(a), lambda x: forall(0, len(a), lambda y: implies(x != y, local_order[x] != local_order[y])))"),
+        # stepping stones (lemmas psum_monotone, psum_flat instantiated on the sorted weights)
+        ("prefix_weights_monotone", "forall(0, len(a) + 1, lambda x: forall(0, len(a) + 1, lambda y: implies(x <= y, "
+                                    "implies(use('psum_monotone', v=local_weights, a=x, b=y), psum(local_weights, x) <= psum(local_weights, y)))))",
+         ["sorted_view"]),
+        ("zero_stretch_adds_nothing", "forall(0, len(a) + 1, lambda x: forall(0, len(a) + 1, lambda y: implies(x <= y and "
+                                      "forall(0, len(a), lambda k: implies(x <= k and k < y, local_weights[k] == 0)), "
+                                      "implies(use('psum_flat', v=local_weights, a=x, b=y), psum(local_weights, y) == psum(local_weights, x)))))",
+         ["sorted_view"]),
+        # what every path establishes: the result is a value whose own position splits the weight (at most half before it,
+        # at most half after it), or the mean of two values with only zero weights between them, the first of which ends
+        # exactly half the weight
+        ("median_point", "let(lambda W, A, H: exists(0, len(a), lambda m: "
+                         "(result == A[m] and psum(W, m) <= H and sumof(W) - psum(W, m + 1) <= H) or "
+                         "exists(0, len(a), lambda m2: m < m2 and 2 * result == A[m] + A[m2] and psum(W, m + 1) <= H and "
+                         "sumof(W) - psum(W, m + 1) <= H and forall(0, len(a), lambda k: implies(m < k and k < m2, W[k] == 0)))), "
+                         "local_weights, local_a, 0.5 * sumof(local_weights) + TOL)".replace("TOL", _WM_TOL),
+         ["sorted_view", "prefix_weights_monotone"]),
+        # the definition of a weighted median, up to the rounding allowance TOL = n * eps * total the code grants itself:
+        # the weight strictly below the result and the weight strictly above it are each at most half the total
+        ("at_most_half_the_weight_below", _WM_BELOW.replace("TOL", _WM_TOL), ["median_point", "sorted_view", "prefix_weights_monotone", "zero_stretch_adds_nothing", "-path"]),
+        ("at_most_half_the_weight_above", _WM_ABOVE.replace("TOL", _WM_TOL), ["median_point", "sorted_view", "prefix_weights_monotone", "zero_stretch_adds_nothing", "-path"]),
+    ],
+    ghost=dict(decorated="body of the function: what on_weighted_array hands it is two float arrays of equal length >= 2 "
+                         "without NaN (it returns a[0] itself for one value); the wrapper is not verified",
+               locals_visible=True, chain_ensures=True),
+    props=("C19", "C14"), domain="skip",
+    notes="the function's own body (what on_weighted_array calls with two NaN-free float arrays of equal length >= 2); "
+          "real arithmetic; clauses over the sorted view local_a/local_weights, a joint reordering of the arguments",
+    canaries=[("weights_not_reordered", "    weights = weights[order]\n", "    weights = weights\n"),
+              ("majority_needs_only_a_third", "midpoint = 0.5 * weights.sum()\n    if (weights > midpoint).any():", "midpoint = 0.5 * weights.sum()\n    if (weights > midpoint / 1.5).any():"),
+              ("search_from_the_right", "cumulative_weight.searchsorted(midpoint - tol)", 'cumulative_weight.searchsorted(midpoint - tol, "right")'),
+              ("averages_with_the_next_value_whatever_its_weight", "a[midpoint_idx + 1 + rest.argmax()]", "a[midpoint_idx + 1]"),
+              ("averages_too_eagerly", "cumulative_weight[midpoint_idx] - midpoint <= tol", "cumulative_weight[midpoint_idx] - midpoint <= 0.25 * midpoint"),
+              ("returns_the_previous_value", "    return a[midpoint_idx]", "    return a[midpoint_idx - 1]")],
+)
+
+contract("cnvlib/descriptives.py::weighted_median#rt", params=dict(a=VecT(Real), w=VecT(Real)), bounded=True,
          gen=_gen_aw, call=_call_aw, props=("C19", "C14"),
          checks=[("half_weight", _wm_half), ("equal_weights_is_median", _wm_equal), ("in_range", _in_range),
                  ("shift_equivariant", _shift_equivariant("weighted_median", True))])
